@@ -285,6 +285,9 @@ def history_c03(env):
         s2b = [x for x in s if x['step'] == "A dials B's address naming C"]
         if not s2b or s2b[0]['ok'] or s2b[0]['a_lists_c'] or not s2b[0]['a_still_lists_b']:
             return 'a second dial of the SAME address naming another identity must fail (the party answering there is still B) and change nothing'
+        s2c = [x for x in s if x['step'].startswith("A dials B's address twice at once")]
+        if not s2c or s2c[0]['pinned_ok'] or s2c[0]['a_lists_c'] or not s2c[0]['a_still_lists_b']:
+            return 'of two simultaneous dials of one address, the one naming an identity that is not the party answering there must fail'
         s3 = [x for x in s if x['step'] == 'A dials C unnamed'][0]
         if not (s3['ok'] and s3['returned_is_c'] and s3['a_lists_c_on_return']):
             return 'an unnamed dial returns the identity of the party actually reached, which is listed on return'
@@ -501,7 +504,12 @@ def claimed_name_grid(env):
         if c['listed'] != want or c['acknowledged'] != want:
             fails.append(dict(scenario='claimed_name_grid', args=dict(listener_accepts=list(accepted[c['listener']]), claimed=c['claimed'], certificate_for=c['certificate_for']),
                               expected=dict(acknowledged=want, listed=want), observed=c))
-    if not fails and len(cells) != 24:
+    for r in got.get('returning') or []:
+        acks = [x['acknowledged'] for x in r['same_key_three_dials']]
+        if acks != [True, False, True]:
+            fails.append(dict(scenario='claimed_name_grid', args=dict(listener=r['listener'], same_key_presents_certificates_for=['net-a', 'net-b', 'net-a'], claimed='net-a'),
+                              expected=dict(acknowledged=[True, False, True], note='a key admitted before is judged again on the certificate it presents now'), observed=r))
+    if not fails and (len(cells) != 24 or len(got.get('returning') or []) != 2):
         raise Undecided('claimed_name_grid scenario reported %d cells' % len(cells))
     return dict(name='claimed_name_grid', validates='the listener side on the real crate against a dialer that is not anemo: 24 combinations of claimed name x certificate name x listener configuration; admitted (acknowledged and listed) exactly when the claimed name is one the listener accepts AND the certificate is valid for a name the listener accepts',
                 cases=len(cells), failed=fails, ok=not fails, props=['C14'],
